@@ -38,8 +38,40 @@ def cleanup(d):
 # ------------------------------------------------------------------------------------------- generation
 
 
-def generate(p, outdir, *, ekf=True, cse=True, k=5.0, max_dt=0.1, namespace="gen", name="gen", container="list", reverse=False, noise=None, cal_container="set"):
-    """Run the real formak.cpp entry point (compile / compile_ekf) for program p.  Returns (header, source)."""
+def _generate_once(p, header, source, *, ekf, cfg, namespace, container, reverse, noise, cal_container, objs=None):
+    """One call of the real formak.cpp entry point. `objs` lets a second call reuse the very same argument objects."""
+    from formak import cpp
+
+    argv = sys.argv
+    sys.argv = ["generator.py", "--header", header, "--source", source, "--namespace", namespace]
+    cwd = os.getcwd()
+    os.chdir(REPO)  # templates are opened relative to the repository root
+    try:
+        if objs is None:
+            objs = {"model": p.ui_model(container, cal_container=cal_container), "calmap": p.sympy_calibration_map()}
+            if ekf:
+                objs["pn"] = p.sympy_process_noise(noise[0] if noise else None)
+                objs["sn"] = p.sympy_sensor_noise(noise[1] if noise else None)
+                objs["sens"] = p.sympy_sensors(reverse=reverse)
+        if ekf:
+            res = cpp.compile_ekf(objs["model"], objs["pn"], objs["sens"], objs["sn"], objs["calmap"], config=cfg)
+        else:
+            res = cpp.compile(objs["model"], objs["calmap"], config=cfg)
+    finally:
+        sys.argv = argv
+        os.chdir(cwd)
+    if not res.success:
+        raise BuildError("formak.cpp reported success=False")
+    return objs
+
+
+def generate(p, outdir, *, ekf=True, cse=True, k=5.0, max_dt=0.1, namespace="gen", name="gen", container="list", reverse=False, noise=None, cal_container="set", warm_program=None):
+    """Run the real formak.cpp entry point (compile / compile_ekf) for program p.  Returns (header, source).
+
+    History dimension of the *generator*: if warm_program is given, a filter for that (differently shaped) program is
+    generated first in the same process, and the target is then generated TWICE from the very same argument objects;
+    the second result is the one returned (a first-generation-only result could not be affected by carried state).
+    `generate.last_info` records whether the two generations produced identical text."""
     from formak import cpp
 
     gdir = os.path.join(outdir, "generated", "formak")
@@ -47,25 +79,24 @@ def generate(p, outdir, *, ekf=True, cse=True, k=5.0, max_dt=0.1, namespace="gen
     header = os.path.join(gdir, f"{name}.h")
     source = os.path.join(outdir, f"{name}.cpp")
     cfg = cpp.Config(common_subexpression_elimination=cse, innovation_filtering=k, max_dt_sec=max_dt)
-    argv = sys.argv
-    sys.argv = ["generator.py", "--header", header, "--source", source, "--namespace", namespace]
-    cwd = os.getcwd()
-    os.chdir(REPO)  # templates are opened relative to the repository root
-    try:
-        model = p.ui_model(container, cal_container=cal_container)
-        calmap = p.sympy_calibration_map()
-        if ekf:
-            pn = p.sympy_process_noise(noise[0] if noise else None)
-            sn = p.sympy_sensor_noise(noise[1] if noise else None)
-            res = cpp.compile_ekf(model, pn, p.sympy_sensors(reverse=reverse), sn, calmap, config=cfg)
-        else:
-            res = cpp.compile(model, calmap, config=cfg)
-    finally:
-        sys.argv = argv
-        os.chdir(cwd)
-    if not res.success:
-        raise BuildError("formak.cpp reported success=False")
+    kw = dict(ekf=ekf, cfg=cfg, namespace=namespace, container=container, reverse=reverse, noise=noise, cal_container=cal_container)
+    info = {"warm": None, "identical": None}
+    if warm_program is not None:
+        wdir = os.path.join(outdir, "warm", "generated", "formak")
+        os.makedirs(wdir, exist_ok=True)
+        _generate_once(warm_program, os.path.join(wdir, "w.h"), os.path.join(outdir, "warm", "w.cpp"), ekf=ekf, cfg=cfg, namespace="warm", container="list", reverse=False, noise=None, cal_container="set")
+        info["warm"] = warm_program.id
+        objs = _generate_once(p, header, source, **kw)
+        first = (open(header).read(), open(source).read())
+        _generate_once(p, header, source, objs=objs, **kw)
+        info["identical"] = first == (open(header).read(), open(source).read())
+    else:
+        _generate_once(p, header, source, **kw)
+    generate.last_info = info
     return header, source
+
+
+generate.last_info = {}
 
 
 # ------------------------------------------------------------------------------------------- compilation
